@@ -53,6 +53,10 @@ def one(ctx, fxs, cfg, body, bclass):
     if obs.raised is None and obs.wf == "empty-array-output":
         ctx.violate("count:empty-array-instead-of-empty-body:" + cfg[1],
                     {"config": list(cfg), "body": body, "bclass": bclass}, {"output": obs.output})
+    if obs.raised is None and obs.wf and obs.wf.startswith("batch:response-not-an-object") and judged:
+        # something that is not a response object sits in the batch reply (e.g. a nested array): not one-to-one
+        ctx.violate("count:non-object-in-batch-reply:" + cfg[1], {"config": list(cfg), "body": body, "bclass": bclass},
+                    {"output": obs.output[:600]})
     if obs.output == "" and isinstance(ref, tuple) and ref[0] == "batch":
         ctx.count("seen:batch-without-response")
     return obs
